@@ -75,8 +75,14 @@ def per_shape(sh, out, rng, ty="i32", all_perms=True):
 def gen(seed, tier):
     rng = random.Random(seed)
     out = []
-    for sh in shapes(4, 3):
-        per_shape(sh, out, rng, ty="str" if (len(sh) <= 2 or sh == [2, 3, 2]) else "i32")
+    # every element type the generic operations are instantiated with in the harness, in rotation: plain numbers of
+    # several widths, strings, and heap-backed compound elements (a list, a pair holding a string) — a path chosen by
+    # element type (seeded change C06m: a gather for types that need drop) must meet each
+    TYS = ["i32", "str", "list", "pair", "f64", "u8", "i64", "f32", "i16", "u16", "u64", "i8"]
+    for k, sh in enumerate(shapes(4, 3)):
+        per_shape(sh, out, rng, ty=TYS[k % len(TYS)])
+        if len(sh) >= 3:
+            per_shape(sh, out, rng, ty=TYS[(k + 1) % 4], all_perms=True)        # i32 / str / list / pair again on rank >= 3
     for sh in shapes(5, 2, min_rank=5):
         per_shape(sh, out, rng)
     # larger extents (power-of-two and odd), mixed with unit axes: blocked / fast-path transposes
